@@ -127,8 +127,19 @@ def quiet_case(case):
 
 def gen(rng, n, nq):
     cases = lpcap.gen(rng, n)
-    for _ in range(nq):
+    for q in range(nq):
         spec = lpcap.gen_spec(rng)
+        if q % 2 == 0:
+            # targeted: base power above 1 MVA, a small production unit among larger loads, and a microgrid battery that charges
+            # (the shedding routine is evaluated in failure-free increments while a battery is not full)
+            while not spec.get("mg"):
+                spec = lpcap.gen_spec(rng)
+            spec["s_ref"] = str(rng.choice([F(10), F(100)]))
+            spec["mg"]["battery"] = {"p": "1/2", "q": "1/2", "e": "4", "smin": "1/10", "smax": "1", "eta": "1", "soc_start": "1/5"}
+            for fd in spec["feeders"]:
+                nb = len(fd["parent"])
+                fd["load"] = [str(rng.choice([F(1, 10), F(1, 5)])) for _ in range(nb)]
+                fd["prod"] = {str(rng.randrange(nb)): {"p": str(rng.choice([F(1, 100), F(1, 50)])), "q": "0"}}
         for fd in spec["feeders"]:
             fd.pop("cap", None)           # capacity not exceeded (the property's premise)
         cases.append({"kind": "quiet", "spec": spec, "n_inc": rng.choice([6, 12]), "dt": str(rng.choice([F(1), F(1, 2)]))})
